@@ -20,6 +20,15 @@ static void check_matrix(const char* fac, int d, int k, const SU_vector& v, cons
   if (!ok) violation(std::string(fac) + ":matrix-mismatch", J().str("factory", fac).i("d", d).i("index", k).num("err", err).arr("components", comps(v)).done());
 }
 
+// Allocation failure inside one factory call must not change what ANY later factory call returns (a call that was abandoned half way
+// leaves no trace in whatever work space the library keeps). The array allocator is replaced so that the k-th request can be refused.
+#include <new>
+#include <cstdlib>
+static long g_alloc_n = 0, g_fail_at = -1;
+void* operator new[](std::size_t n) { if (g_fail_at >= 0 && g_alloc_n++ == g_fail_at) throw std::bad_alloc(); void* p = std::malloc(n ? n : 1); if (!p) throw std::bad_alloc(); return p; }
+void operator delete[](void* p) noexcept { std::free(p); }
+void operator delete[](void* p, std::size_t) noexcept { std::free(p); }
+
 // Factory calls made while the program's namespace-scope objects are being initialised (a global table of constant
 // operators is ordinary use): recorded here, compared in main() with the reference matrices like every other call.
 struct EarlyCall { const char* fac; int d, k; std::vector<double> comps; int dim; bool threw; };
@@ -129,6 +138,30 @@ int main(int argc, char** argv) {
       double err = ref::maxabs(refmat(s) - ref::eye(d));
       if (!(err <= 1e-15)) violation("PosProjector+NegProjector:not-identity", J().i("d", d).i("k", k).num("err", err).arr("sum", comps(s)).done());
     }
+  }
+  // ---- every factory call with every one of its allocations refused once; afterwards every factory of every dimension is asked again
+  {
+    auto fac = [&](int which, int d, int k) { return which == 0 ? SU_vector::Identity(d) : which == 1 ? SU_vector::Projector(d, k) : which == 2 ? SU_vector::Generator(d, k) : which == 3 ? SU_vector::PosProjector(d, k) : SU_vector::NegProjector(d, k); };
+    const char* FN[] = {"Identity", "Projector", "Generator", "PosProjector", "NegProjector"};
+    auto recheck = [&](const std::string& after) {
+      for (int d = 2; d <= 6; d++) { const ref::Basis& B = ref::basis(d);
+        for (int k = 0; k < d; k++) { Mat wp(d), wn(d); for (int i = 0; i < k; i++) { wp(i, i) = 1; wn(d - 1 - i, d - 1 - i) = 1; }
+          struct { int which; Mat want; } L[] = {{1, ref::E(d, k, k)}, {3, wp}, {4, wn}, {2, B.lam[k * d + k]}, {0, ref::eye(d)}};
+          for (auto& l : L) { SU_vector v = fac(l.which, d, l.which == 2 ? k * d + k : k); double err = ref::maxabs(refmat(v) - l.want); count("evaluations");
+            if (!(err <= 1e-15)) { violation(std::string(FN[l.which]) + ":matrix-mismatch:after-an-allocation-failure-in-an-earlier-factory-call", J().str("factory", FN[l.which]).i("d", d).i("index", k).str("earlier", after).num("err", err).arr("components", comps(v)).done()); return; } } } }
+    };
+    for (int which = 0; which < 5; which++) for (int d = 2; d <= 6; d++) for (int k : {0, 1, d - 1}) {
+      if (which == 0 && k) continue;
+      SU_vector::clear_mem_cache(); g_alloc_n = 0; g_fail_at = 1L << 40; { SU_vector v = fac(which, d, k); (void)v; } long N = g_alloc_n; g_fail_at = -1;
+      for (long f = 0; f < N; f++) {
+        SU_vector::clear_mem_cache(); g_alloc_n = 0; g_fail_at = f; bool threw = false;
+        try { SU_vector v = fac(which, d, k); (void)v; } catch (const std::bad_alloc&) { threw = true; }
+        g_fail_at = -1; count("evaluations"); count("allocation_failures_injected_into_factories");
+        if (!threw) { violation(std::string(FN[which]) + ":bad_alloc-swallowed", J().i("d", d).i("index", k).i("allocation", f).done()); continue; }
+        recheck(fmt("%s(%d,%d) with allocation %ld refused", FN[which], d, k, f));
+      }
+    }
+    SU_vector::clear_mem_cache();
   }
   finish();
   return 0;
